@@ -276,9 +276,9 @@ def _regen_bits(T, A, B):
 
 def prepare(case):
     case = dict(case)
-    if case.get("obj"):
+    if case.get("opts") or case.get("obj"):
         try:
-            return _prepare_object(case)
+            return _prepare_opts(case) if case.get("opts") else _prepare_object(case)
         except Exception as e:
             case["pre"] = {"error": type(e).__name__ + ": " + str(e)[:160]}
             return case
@@ -338,6 +338,8 @@ def history(case):
 
 
 def impl(case):
+    if case.get("opts"):
+        return _impl_opts(case)
     if case.get("obj"):
         return _impl_object(case)
     if case.get("hist"):
@@ -362,6 +364,82 @@ def _impl_m(case):
     return [base, [nonneg, o["sep"], rawset, kept]]
 
 
+# ------------------------------------------------------------------ OPTION cases: embed_threshold / embed_pre_filter reach the engine
+OPTS = [(1, False), (2, False), (1, True), (2, True), (3, True), (None, True), (50, True), (0, False)]
+
+
+def _opts_level(case):
+    """the matching stage of a reactor built with non-default embed_threshold / embed_pre_filter (correspondence only: the
+    property says nothing about them): raw matches, kept mappings, component structure"""
+    import copy
+    import networkx as nx
+    import synkit.Synthesis.Reactor.syn_reactor as SR
+    from synkit.Graph.Hyrogen._misc import h_to_implicit, has_XH
+    o = graph_level(dict(case, opts=None, strategy="all"))
+    if "skip" in o:
+        return None
+    thr, pref = case["opts"]
+    if thr == "nraw":                     # exactly the number of matches of the default run: the threshold itself does not bite, the pre-filter may
+        thr = int(o["nraw"])
+    seen = {}
+    orig = SR.deduplicate_matches_by_automorphisms
+
+    def dedup(ms, *a, **k):
+        ms = list(ms)
+        seen["raw"] = [dict(m) for m in ms]
+        return orig(ms, *a, **k)
+    SR.deduplicate_matches_by_automorphisms = dedup
+    try:
+        R = SR.SynReactor(copy.deepcopy(o["host"]), copy.deepcopy(o["tpl"]), invert=bool(case["invert"]), strategy=case["strategy"],
+                          embed_threshold=thr, embed_pre_filter=pref, **K.MODES[o["mode"]])
+        mappings = [dict(m) for m in R.mappings]
+    finally:
+        SR.deduplicate_matches_by_automorphisms = orig
+    raw = seen.get("raw", mappings)
+    host, pat = o["host"], o["pat"]
+    hcc, pcc = nx.number_connected_components(host), nx.number_connected_components(pat)
+    comp_of = {n: k for k, c in enumerate(nx.connected_components(host)) for n in c}
+    pcomp_of = {n: k for k, c in enumerate(nx.connected_components(pat)) for n in c}
+    inside = {}
+    for n in pat.nodes:
+        inside.setdefault(comp_of.get(n), set()).add(pcomp_of[n])
+    return dict(o=o, thr=thr, raw=raw, mappings=mappings, sep=[hcc, pcc, 1 if all(len(v) <= 1 for v in inside.values()) else 0],
+                nonneg=1 if all(int(d.get("hcount", 0)) >= 0 for _, d in pat.nodes(data=True)) else 0)
+
+
+def _impl_opts(case):
+    from ..tok import S
+    pre = case.get("pre")
+    if pre is not None and ("error" in pre or "skip" in pre):
+        return ["SKIP"]
+    lv = _opts_level(case)
+    if lv is None:
+        return ["SKIP"]
+    return [lv["nonneg"], lv["sep"], [S([K.map_obs(m) for m in lv["raw"]])], [[K.map_obs(m) for m in lv["mappings"]]]]
+
+
+def _prepare_opts(case):
+    lv = _opts_level(case)
+    if lv is None:
+        case["pre"] = {"skip": "outside the precondition"}
+        return case
+    o = lv["o"]
+    if o["host"].number_of_nodes() > (80 if case["opts"][0] == "nraw" else CHK_HOST) or len(lv["raw"]) > MAX_RAW:
+        case["pre"] = {"skip": "too large for the model's own enumeration"}
+        return case
+    case["pre"] = {"G": _host_json(o["G"]), "H": _host_json(o["H"]), "raw": [K.map_pairs(m) for m in lv["raw"]], "mode": o["mode"], "thr": lv["thr"]}
+    return case
+
+
+def _coq_opts(case):
+    pre = case["pre"]
+    thr, pref = pre["thr"], case["opts"][1]
+    strat = "(SK.model.C06_Model.SStr %s)" % K.cl([K.cN(b) for b in case.get("strategy", "all").encode()])
+    return "run_matching_opts %s %s %s %s %s %s %s true (Some %s)" % (
+        K.cb(case["core"]), K.cb(case["invert"]), _c_hostj(pre["G"]), _c_hostj(pre["H"]), strat,
+        "None" if thr is None else "(Some %s)" % K.cN(thr), K.cb(pref), OB.c_maps(pre["raw"]))
+
+
 # ------------------------------------------------------------------ OBJECT cases (harness/gen/c04_obj.py)
 
 def _obj_inputs(case):
@@ -374,7 +452,8 @@ def _obj_inputs(case):
         return None
     from synkit.IO.chem_converter import rsmi_to_its
     # the template as the caller hands it over: NOT inverted (the reactor inverts)
-    return o["host"], rsmi_to_its(case["rsmi"], core=bool(case["core"])), bool(case["invert"]), K.MODES[o["mode"]], None
+    kw = K.MODES["S"] if case["obj"] == "ownS" else K.MODES[o["mode"]]
+    return o["host"], rsmi_to_its(case["rsmi"], core=bool(case["core"])), bool(case["invert"]), kw, None
 
 
 def _impl_object(case):
@@ -419,7 +498,8 @@ def _coq_object(case):
     if case["obj"] == "crash":
         return ("run_object (RO false true false (SK.model.C06_Model.SMember 0%%N) None false) (Some false) %s %s %s %s %s"
                 % (pre["host"], pre["tpl"], raw, tbl, sc))
-    return "run_object_own %s %s %s %s %s %s %s" % (K.cb(case["core"]), K.cb(case["invert"]), _c_hostj(pre["G"]), _c_hostj(pre["H"]), raw, tbl, sc)
+    fn = "run_object_S" if case["obj"] == "ownS" else "run_object_own"
+    return "%s %s %s %s %s %s %s %s" % (fn, K.cb(case["core"]), K.cb(case["invert"]), _c_hostj(pre["G"]), _c_hostj(pre["H"]), raw, tbl, sc)
 
 
 def _impl_kept(case):
@@ -567,6 +647,8 @@ def coq_case(case):
         pre = prepare(case)["pre"]
     if "error" in pre or "skip" in pre:
         return None
+    if case.get("opts"):
+        return _coq_opts(dict(case, pre=pre))
     if case.get("obj"):
         return _coq_object(dict(case, pre=pre))
     rm = pre["remaps"]
@@ -629,7 +711,7 @@ def _sub_is_implicit_form(sub, host):
 
 
 def oracle(case):
-    if case.get("obj"):
+    if case.get("obj") or case.get("opts"):
         return []            # correspondence only: the VALUES of the reads are compared with the state machine of the model
     fails = _oracle_plain(case)
     if case.get("hist") and not (case.get("pre") or {}).get("skip"):
@@ -643,6 +725,9 @@ def oracle(case):
                 fails.append(dict(clause="history-lost", key="%s:%s:lost" % (base, rec["label"].replace(" ", "-")),
                                   detail="step %d (%s): the reaction is among the results of a fresh evaluation but not of the shared objects; %s"
                                          % (rec["step"], rec["label"], rec.get("detail", ""))))
+            elif rec.get("modified"):
+                fails.append(dict(clause="template-object-modified", key="%s:%s:modified" % (base, rec["label"].replace(" ", "-")),
+                                  detail="step %d (%s): %s" % (rec["step"], rec["label"], rec.get("detail", ""))))
             elif not rec["equal"]:
                 fails.append(dict(clause="history-differs", key="%s:%s:differs" % (base, rec["label"].replace(" ", "-")),
                                   detail="step %d (%s): %s" % (rec["step"], rec["label"], rec.get("detail", ""))))
@@ -751,7 +836,7 @@ def _explained_by_outside(o):
 
 def _unwrap(case, obs):
     """observable layers: [[plain, kept bit], history bits] / [plain, kept bit]"""
-    if case.get("obj"):
+    if case.get("obj") or case.get("opts"):
         return ["SKIP"]
     if case.get("hist") and isinstance(obs, list) and len(obs) == 2 and isinstance(obs[0], list):
         obs = obs[0]
@@ -779,6 +864,13 @@ def distribution(cases, obss):
     for c, o in zip(cases, obss):
         if not isinstance(o, list) or not o or o[0] in ("SKIP", "EXC"):
             d["skipped"] += 1
+            continue
+        if c.get("opts"):
+            oc = d.setdefault("option_cases", dict(cases=0, engine_returned_nothing=0, by_option={}))
+            oc["cases"] += 1
+            oc["by_option"][str(c["opts"])] = oc["by_option"].get(str(c["opts"]), 0) + 1
+            if len(o) == 4 and o[2] and not o[2][0].get("__set__"):
+                oc["engine_returned_nothing"] += 1
             continue
         if c.get("obj"):
             oc = d.setdefault("object_cases", dict(cases=0, reads=0, raised=0, scripts={}))
@@ -901,9 +993,36 @@ def _mk_obj(hname, r, core, inv, script):
     return c
 
 
+def _opts_cases(tier, rng, corpus_pick=()):
+    out = []
+    # corpus reactions, full ITS, embed_threshold = the number of matches: without the pre-filter everything is returned, with it the candidate
+    # product of a whole molecule exceeds threshold x 1e4 and nothing is
+    for cid, r in corpus_pick:
+        for pf in (True, False):
+            c = _mk(cid, r, False, False, "all", 0, None)
+            c.update(kind="options", name="%s:opts:nraw:%s" % (c["name"], "pf" if pf else "nopf"), opts=["nraw", pf])
+            out.append(c)
+    # the pre-filter only bites when the candidate product exceeds threshold x 1e4 while the true number of matches does not exceed the
+    # threshold: full ITS of a benzene ring (6^6 candidates, 2 matches) with embed_threshold = 2, with and without the pre-filter
+    for hname, opt in (("aromatic-sub", (2, True)), ("aromatic-sub", (2, False)), ("diels-alder", (4, True)), ("diels-alder", (4, False))):
+        for st in ("all", "bt"):
+            c = _mk("hand:" + hname, dict(HAND)[hname], False, False, st, 0, None)
+            c.update(kind="options", name="%s:opts:%s:%s" % (c["name"], opt[0], "pf" if opt[1] else "nopf"), opts=list(opt))
+            out.append(c)
+    for hname, r in HAND:
+        for core in (True, False):
+            for inv in ((False, True) if tier != "quick" else (rng.random() < 0.5,)):
+                for opt in (OPTS if tier != "quick" else rng.sample(OPTS, 2)):
+                    c = _mk("hand:" + hname, r, core, inv, rng.choice(["all", "comp", "bt"]), 0, None)
+                    c.update(kind="options", name="%s:opts:%s:%s" % (c["name"], opt[0], "pf" if opt[1] else "nopf"), opts=list(opt))
+                    out.append(c)
+    return out
+
+
 def _obj_cases(tier, rng, corpus_pick=()):
     """one reactor OBJECT per case, a script of reads, every VALUE compared with the state machine of model/C04_Reactor.v"""
     out = []
+    hand = dict(HAND)
     scripts = sorted(OB.SCRIPTS)
     # corpus reactions (usp: default mode with _explicit_h over the list; eco: implicit mode, charges): one script each, random template / direction
     for cid, r in corpus_pick:
@@ -916,6 +1035,12 @@ def _obj_cases(tier, rng, corpus_pick=()):
             for inv in (False, True):
                 for sc in (scripts if (tier != "quick" or hname in HIST_RX) else [rng.choice(scripts)]):
                     out.append(_mk_obj(hname, r, core, inv, sc))
+    # the third hydrogen mode the options allow (explicit_h=False without implicit_temp: default-mode rule, no _explicit_h stage)
+    for hname in HIST_RX:
+        for core, inv in ((True, False), (False, True)):
+            c = _mk_obj(hname, hand[hname], core, inv, rng.choice(scripts))
+            c.update(obj="ownS", kind="object-modeS", name=c["name"] + ":modeS")
+            out.append(c)
     for sc in scripts:
         out.append(dict(kind="object-crash", name="hand:crash-rule:obj:%s" % sc, cid="hand:crash-rule", obj="crash", script=sc,
                         core=True, invert=False, strategy="all", variant=0, rsmi=""))
@@ -982,6 +1107,7 @@ def gen_cases(tier, rng):
         opick = [("%s#%d" % (name, row[0]), C[name][row[0]]) for name in ("usp", "eco") for row in good[name][::4]
                  if "%s#%d" % (name, row[0]) not in SLOW and not (name == "usp" and row[0] == 21)]
     cases += _obj_cases(tier, rng, opick)
+    cases += _opts_cases(tier, rng, opick[:4] if tier == "quick" else opick[:16])
     return prepare_all(cases)
 
 
